@@ -99,7 +99,8 @@ Proof. unfold is_approved. rewrite existsb_exists. intros [x [Hx E]]. apply N.eq
 
 Ltac break_step :=
   repeat match goal with
-  | |- context [match session ?k ?s ?cs ?m with _ => _ end] => destruct (session k s cs m) eqn:?
+  | |- context [match auth ?k ?s ?c ?cs ?m with _ => _ end] => destruct (auth k s c cs m) as [[? ?]|] eqn:?
+  | |- context [match upgrade ?k ?s ?u ?cs ?l with _ => _ end] => destruct (upgrade k s u cs l) as [? ?] eqn:?
   | |- context [match ?x with VGood _ => _ | VBad => _ end] => destruct x
   | |- context [match ?x with TCode _ _ => _ | TBad => _ end] => destruct x
   | |- context [match ?x with BCode _ _ => _ | BBad => _ end] => destruct x
@@ -112,7 +113,7 @@ Ltac break_step :=
   end.
 
 Ltac sset := cbn [issued tokens vip txs approved chal last_totp boot proved spent now fresh
-                  set_ghost set_issued set_chal set_boot set_totp upgrade fst snd cuser clevel].
+                  set_ghost set_issued set_chal set_boot set_totp fst snd cuser clevel].
 Ltac mono s := apply (Inv_mono s); sset; auto using incl_refl, incl_tl, N.le_refl; try lia.
 
 Ltac clean :=
@@ -122,29 +123,103 @@ Ltac clean :=
   | H : negb _ = false |- _ => apply negb_false_iff in H
   end.
 
-(* the new cookie is the session cookie with factors added, each of which heads `proved` *)
-Ltac new_cookie s HI :=
-  let c' := fresh "c'" in let Hc := fresh "Hc" in let g := fresh "g" in let Hg := fresh "Hg" in
-  intros c' Hc; apply in_app_single in Hc; destruct Hc as [Hc| ->]; [now left|right]; sset;
-  intros g Hg; repeat rewrite has_add in Hg; rewrite ?has_zero in Hg;
-  repeat (apply orb_true_iff in Hg; destruct Hg as [Hg|Hg]);
-  try discriminate;
-  match type of Hg with
-  | has (clevel ?c) _ = true =>
-      assert (In (cuser c, g) (proved s))
-        by (destruct HI as [I1 _]; apply (I1 c); [eapply session_in; eauto|exact Hg]);
-      cbn [In]; tauto
-  | _ => apply N.eqb_eq in Hg; subst g; cbn [In]; auto
+(* ---- what a request is authenticated as ---- *)
+Lemma attached_ext s s' cs : issued s' = issued s -> attached s' cs = attached s cs.
+Proof. intros H. induction cs as [|i r IH]; [reflexivity|]. cbn [attached]. rewrite H, IH. reflexivity. Qed.
+
+(* the client certificate's user has the certificate factor on record *)
+Definition cert_known (s : st) (cert : option N) : Prop :=
+  forall u, cert = Some u -> In (u, F_X509) (proved s).
+
+Lemma auth_proved k s cert cs m u l :
+  Inv s -> cert_known s cert -> auth k s cert cs m = Some (u, l) ->
+  forall g, has l g = true -> In (u, g) (proved s).
+Proof.
+  intros [I1 _] Hc. unfold auth.
+  destruct (if N.eqb (N.land m cert_mask) 0 then None else cert) as [u0|] eqn:E.
+  - intros H g Hg. inversion H; subst u0 l. rewrite has_add, has_zero in Hg. apply N.eqb_eq in Hg. subst g.
+    apply Hc. destruct (N.eqb (N.land m cert_mask) 0); [discriminate|exact E].
+  - destruct (session k s cs m) as [c|] eqn:S; [|discriminate]. intros H g Hg. inversion H; subst u l.
+    apply (I1 c (session_in _ _ _ _ _ S) g Hg).
+Qed.
+
+(* updateAuthCookieAuthlevel touches nothing but the list of issued cookies *)
+Lemma upgrade_fields k s u cs lvl s2 out :
+  upgrade k s u cs lvl = (s2, out) ->
+  tokens s2 = tokens s /\ vip s2 = vip s /\ txs s2 = txs s /\ approved s2 = approved s /\ chal s2 = chal s /\
+  last_totp s2 = last_totp s /\ boot s2 = boot s /\ proved s2 = proved s /\ spent s2 = spent s /\
+  now s2 = now s /\ fresh s2 = fresh s.
+Proof.
+  unfold upgrade. destruct (pick k (attached s cs)) as [c|]; [|intros H; inversion H; subst; repeat split].
+  destruct (upgrade_checks_owner k && negb (N.eqb (cuser c) u)); intros H; inversion H; subst; repeat split.
+Qed.
+
+(* ... and the cookie it adds belongs to the authenticated user (repaired code) and carries the
+   level it was given *)
+Lemma upgrade_issued k s u cs lvl s2 out :
+  upgrade_checks_owner k = true -> upgrade k s u cs lvl = (s2, out) ->
+  (issued s2 = issued s /\ out = None) \/
+  (issued s2 = issued s ++ [{| cuser := u; clevel := lvl |}] /\ out = Some {| cuser := u; clevel := lvl |}).
+Proof.
+  intros Hk. unfold upgrade. destruct (pick k (attached s cs)) as [c|]; [|intros H; inversion H; subst; now left].
+  rewrite Hk. cbn [andb]. destruct (N.eqb (cuser c) u) eqn:E; cbn [negb]; intros H; inversion H; subst.
+  - apply N.eqb_eq in E. rewrite E. right. split; reflexivity.
+  - now left.
+Qed.
+
+(* the general shape of a second-factor success: some Inv-irrelevant effect (s -> s1), the upgrade
+   at level lvl for the authenticated user u, then the ghost record of what was proved *)
+Lemma upgrade_ghost_Inv k s s1 u cs lvl s2 out extra sp :
+  upgrade_checks_owner k = true -> Inv s ->
+  issued s1 = issued s -> txs s1 = txs s -> vip s1 = vip s -> approved s1 = approved s ->
+  proved s1 = proved s -> (fresh s <= fresh s1)%N ->
+  upgrade k s1 u cs lvl = (s2, out) ->
+  (forall g, has lvl g = true -> In (u, g) (extra ++ proved s)) ->
+  Inv (set_ghost s2 (extra ++ proved s2) sp).
+Proof.
+  intros Hk HI Hi Ht Hv Ha Hp Hf HU Hl.
+  destruct (upgrade_fields _ _ _ _ _ _ _ HU) as [_ [F2 [F3 [F4 [_ [_ [_ [F8 [_ [_ F11]]]]]]]]]].
+  apply (Inv_mono s); sset; try congruence; try exact HI.
+  - rewrite F8, Hp. apply incl_appr, incl_refl.
+  - intros c Hc. rewrite F8, Hp.
+    destruct (upgrade_issued _ _ _ _ _ _ _ Hk HU) as [[E _]|[E _]]; rewrite E, Hi in Hc.
+    + now left.
+    + apply in_app_single in Hc. destruct Hc as [Hc| ->]; [now left|right]. cbn [cuser clevel]. exact Hl.
+Qed.
+
+Lemma add_level_proved (P : list (N * N)) u l f :
+  (forall g, has l g = true -> In (u, g) P) -> In (u, f) P ->
+  forall g, has (add l f) g = true -> In (u, g) P.
+Proof.
+  intros Hl Hf g Hg. rewrite has_add in Hg. apply orb_true_iff in Hg. destruct Hg as [Hg|Hg]; [apply Hl, Hg|].
+  apply N.eqb_eq in Hg. subst g. exact Hf.
+Qed.
+
+(* close a goal  Inv (set_ghost s2 (extra ++ proved s2) sp)  where s2 comes out of an upgrade *)
+Ltac up_inv k s extra Hu HI Hc :=
+  match goal with HA : auth _ _ _ _ _ = Some (?u, ?l), HU : upgrade _ ?s1 ?u ?cs ?lvl = (_, _) |- _ =>
+    let HL := fresh "HL" in
+    pose proof (auth_proved _ _ _ _ _ _ _ HI Hc HA) as HL;
+    eapply (upgrade_ghost_Inv k s s1 u cs lvl _ _ extra _ Hu HI);
+    [ sset; first [reflexivity | apply N.le_refl] .. | exact HU | ];
+    repeat (apply add_level_proved);
+    [ intros g Hg; apply in_or_app; right; apply HL, Hg | cbn [app In]; auto .. ]
   end.
 
-Lemma step_Inv k s o : poll_checks_user k = true -> Inv s -> Inv (fst (step k s o)).
+Lemma step_req_Inv k cert fault s o :
+  poll_checks_user k = true -> upgrade_checks_owner k = true ->
+  Inv s -> cert_known s cert -> Inv (fst (step_req k cert fault s o)).
 Proof.
-  intros Hk HI. destruct o.
-  - (* Login *) cbn [step]; break_step; sset; try exact HI. mono s. new_cookie s HI.
-  - (* Logout *) exact HI.
-  - (* VipOtp *) cbn [step]; break_step; sset; try exact HI. clean; subst. mono s. new_cookie s HI.
+  intros Hk Hu HI Hc. destruct o; cbn [step_req]; try exact HI.
+  - (* Login *)
+    break_step; sset; try exact HI. mono s.
+    intros c' Hin. apply in_app_single in Hin. destruct Hin as [Hin| ->]; [now left|right]. cbn [cuser clevel].
+    intros g Hg. rewrite has_add, has_zero in Hg. apply N.eqb_eq in Hg. subst g. now left.
+  - (* VipOtp *)
+    break_step; sset; try exact HI. clean; subst.
+    match goal with |- Inv (set_ghost _ (?x :: _) _) => up_inv k s [x] Hu HI Hc end.
   - (* PushStart *)
-    cbn [step]; break_step; sset; try exact HI.
+    break_step; sset; try exact HI.
     pose proof HI as [I1 [I2 [I3 I4]]]. unfold Inv; sset. split; [exact I1|split; [|split]].
     + intros e [<-|He]; cbn [fst]; [lia|]. specialize (I2 e He). lia.
     + intros e [<-|He]; cbn [vtx vuser].
@@ -156,41 +231,70 @@ Proof.
       unfold tx_user; cbn [txs find fst snd]. destruct (N.eqb (fresh s) tx) eqn:E; [|exact H1].
       apply N.eqb_eq in E. pose proof (tx_user_lt s tx u HI H1). lia.
   - (* Approve *)
-    cbn [step]; break_step; sset; try exact HI.
+    break_step; sset; try exact HI.
     pose proof HI as [I1 [I2 [I3 I4]]]. unfold Inv; sset. split; [|split; [exact I2|split; [exact I3|]]].
-    + intros c Hc f Hf. right. apply (I1 c Hc f Hf).
+    + intros c Hin f Hf. right. apply (I1 c Hin f Hf).
     + intros tx' [<-|Htx].
       * eexists. split; [eassumption|now left].
       * destruct (I4 tx' Htx) as [u [H1 H2]]. exists u. split; [exact H1|now right].
   - (* Poll *)
-    cbn [step]. destruct (session k s cs any_mask) as [c|] eqn:Hs; [|exact HI].
+    destruct (auth k s cert cs any_mask) as [[u l]|] eqn:HA; [|exact HI].
     destruct (find_vip s v) as [e|] eqn:Hv; [|exact HI]. rewrite Hk. cbn [andb].
-    destruct (negb (N.eqb (vuser e) (cuser c))) eqn:Hu; [exact HI|].
-    destruct (is_approved s (vtx e)) eqn:Ha; [|exact HI]. sset.
-    apply negb_false_iff, N.eqb_eq in Hu. pose proof HI as [I1 [I2 [I3 I4]]].
-    apply is_approved_in in Ha. destruct (I4 _ Ha) as [u [H1 H2]].
-    rewrite (I3 e (find_vip_in _ _ _ Hv)) in H1. inversion H1; subst u. rewrite Hu in H2.
-    mono s. intros c' Hc. apply in_app_single in Hc. destruct Hc as [Hc| ->]; [now left|right]. sset.
-    apply (upgraded_ok s c F_VIP); [exact HI|eapply session_in; eauto|apply incl_refl|exact H2].
+    destruct (negb (N.eqb (vuser e) u)) eqn:Hne; [exact HI|].
+    destruct (is_approved s (vtx e)) eqn:Ha; [|exact HI].
+    apply negb_false_iff, N.eqb_eq in Hne. pose proof HI as [I1 [I2 [I3 I4]]].
+    apply is_approved_in in Ha. destruct (I4 _ Ha) as [u0 [H1 H2]].
+    rewrite (I3 e (find_vip_in _ _ _ Hv)) in H1. inversion H1; subst u0. rewrite Hne in H2.
+    pose proof (auth_proved _ _ _ _ _ _ _ HI Hc HA) as HL.
+    destruct (upgrade k s u cs (add l F_VIP)) as [s2 out] eqn:HU. cbn [fst].
+    pose proof (upgrade_ghost_Inv k s s u cs (add l F_VIP) s2 out [] (spent s2) Hu HI eq_refl eq_refl eq_refl eq_refl
+                  eq_refl (N.le_refl _) HU) as G. cbn [app] in G.
+    assert (G' : Inv (set_ghost s2 (proved s2) (spent s2))).
+    { apply G. apply add_level_proved; [exact HL|exact H2]. }
+    destruct s2; exact G'.
   - (* Totp *)
-    cbn [step]; break_step; sset; try exact HI; clean; subst; mono s; new_cookie s HI.
-  - (* U2fBegin *) cbn [step]; break_step; sset; try exact HI; mono s.
+    break_step; sset; try exact HI. clean; subst.
+    match goal with |- Inv (set_ghost _ (?x :: _) _) => up_inv k s [x] Hu HI Hc end.
+  - (* U2fBegin *) break_step; sset; try exact HI; mono s.
   - (* U2fFinish *)
-    cbn [step]; break_step; sset; try exact HI; clean;
-      match goal with H : a_owner _ = _ |- _ => rewrite H in * end; mono s; new_cookie s HI.
-  - (* WaBegin *) cbn [step]; break_step; sset; try exact HI; mono s.
+    break_step; sset; try exact HI; clean;
+    match goal with H : a_owner _ = _ |- _ => rewrite H in * end;
+    (destruct (a_wa_key a); [destruct (chal_delete_wa k)|]);
+    match goal with |- Inv (set_ghost _ (?x :: _) _) => up_inv k s [x] Hu HI Hc end.
+  - (* WaBegin *) break_step; sset; try exact HI; mono s.
   - (* WaFinish *)
-    cbn [step]; break_step; sset; try exact HI; clean;
-      match goal with H : a_owner _ = _ |- _ => rewrite H in * end; mono s;
-      try (intros x Hx; right; right; exact Hx); new_cookie s HI.
-  - (* IssueOtp *) cbn [step]; break_step; sset; try exact HI; mono s.
+    break_step; sset; try exact HI; clean;
+    match goal with H : a_owner _ = _ |- _ => rewrite H in * end;
+    match goal with
+    | |- Inv (set_ghost _ (?x :: ?y :: proved _) _) => up_inv k s [x; y] Hu HI Hc
+    | |- Inv (set_ghost _ (?x :: _) _) => up_inv k s [x] Hu HI Hc
+    end.
+  - (* IssueOtp *) break_step; sset; try exact HI; mono s.
   - (* Bootstrap *)
-    cbn [step]; break_step; sset; try exact HI; clean; subst; mono s; new_cookie s HI.
-  - (* ShowTok *) cbn [step]; break_step; sset; try exact HI; mono s.
+    break_step; sset; try exact HI. clean; subst.
+    match goal with |- Inv (set_ghost _ (?x :: _) _) => up_inv k s [x] Hu HI Hc end.
+  - (* ShowTok *) break_step; sset; try exact HI; mono s.
   - (* SendDoc *)
-    cbn [step]; break_step; sset; try exact HI; clean.
-    match goal with H : towner _ = _ |- _ => rewrite H in * end. mono s. new_cookie s HI.
-  - (* Tick *) cbn [step]. mono s.
+    break_step; sset; try exact HI; clean.
+    match goal with H : towner _ = _ |- _ => rewrite H in * end. mono s.
+    intros c' Hin. apply in_app_single in Hin. destruct Hin as [Hin| ->]; [now left|right]. cbn [cuser clevel].
+    intros g Hg. rewrite has_add, has_zero in Hg. apply N.eqb_eq in Hg. subst g. now left.
+Qed.
+
+Lemma present_cert_Inv s cert : Inv s -> Inv (present_cert s cert) /\ cert_known (present_cert s cert) cert.
+Proof.
+  intros HI. destruct cert as [u|]; cbn [present_cert].
+  - split; [mono s|]. intros u0 H. inversion H; subst. sset. now left.
+  - split; [exact HI|]. intros u0 H. discriminate.
+Qed.
+
+Lemma step_Inv k s o :
+  poll_checks_user k = true -> upgrade_checks_owner k = true -> Inv s -> Inv (fst (step k s o)).
+Proof.
+  intros Hk Hu HI.
+  assert (Hn : cert_known s None) by (intros u H; discriminate).
+  destruct o; try (apply (step_req_Inv k None false s _ Hk Hu HI Hn)).
+  cbn [step]. destruct (present_cert_Inv s cert HI) as [HI' Hc]. apply step_req_Inv; assumption.
 Qed.
 
 Lemma run_fst_step k : forall ops s, fst (run k s ops) = fold_left (fun s o => fst (step k s o)) ops s.
@@ -200,9 +304,10 @@ Proof.
   cbn [fst] in *. rewrite IH. reflexivity.
 Qed.
 
-Theorem run_Inv k ops : poll_checks_user k = true -> Inv (fst (run k init ops)).
+Theorem run_Inv k ops :
+  poll_checks_user k = true -> upgrade_checks_owner k = true -> Inv (fst (run k init ops)).
 Proof.
-  intros Hk. rewrite run_fst_step. generalize Inv_init. generalize init.
+  intros Hk Hu. rewrite run_fst_step. generalize Inv_init. generalize init.
   induction ops as [|o r IH]; intros s HI; [exact HI|]. cbn [fold_left]. apply IH. apply step_Inv; assumption.
 Qed.
 
@@ -349,43 +454,67 @@ Qed.
 Lemma Inv2_irrelevant s iss p : Inv2 s -> Inv2 (set_ghost (set_issued s iss) p (spent s)).
 Proof. intros H. mono2 s. Qed.
 
-Lemma step_Inv2 k s o :
-  totp_monotone k = true -> chal_delete_wa k = true -> Inv2 s -> Inv2 (fst (step k s o)).
+Ltac sset_all := cbn [issued tokens vip txs approved chal last_totp boot proved spent now fresh
+                      set_ghost set_issued set_chal set_boot set_totp fst snd cuser clevel] in *.
+
+(* goal: Inv2 (set_ghost s2 _ (V :: spent s2)) with s2 out of an upgrade of s1; R is the reference
+   state the Inv2_use_* lemma speaks about *)
+Ltac up_inv2 R lem :=
+  match goal with HU : upgrade _ _ _ _ _ = (_, _) |- _ =>
+    let F := fresh "F" in
+    pose proof (upgrade_fields _ _ _ _ _ _ _ HU) as F; sset_all;
+    destruct F as [_ [_ [_ [_ [F5 [F6 [F7 [_ [F9 [_ F11]]]]]]]]]];
+    apply (Inv2_mono R); [apply lem; assumption | sset; try congruence; try (rewrite F11; apply N.le_refl) ..]
+  end.
+
+Lemma step_req_Inv2 k cert fault s o :
+  totp_monotone k = true -> chal_delete_wa k = true -> Inv2 s -> Inv2 (fst (step_req k cert fault s o)).
 Proof.
-  intros Hm Hd HJ. destruct o; cbn [step]; rewrite ?Hm, ?Hd.
+  intros Hm Hd HJ. destruct o; cbn [step_req]; rewrite ?Hm, ?Hd; try exact HJ.
   - (* Login *) break_step; sset; try exact HJ; try (mono2 s).
-  - exact HJ.
-  - (* VipOtp *) break_step; sset; try exact HJ; try (mono2 s).
+  - (* VipOtp *)
+    break_step; sset; try exact HJ.
+    match goal with HU : upgrade _ _ _ _ _ = (_, _) |- _ =>
+      destruct (upgrade_fields _ _ _ _ _ _ _ HU) as [_ [_ [_ [_ [F5 [F6 [F7 [_ [F9 [_ F11]]]]]]]]]] end.
+    apply (Inv2_mono s); sset; try congruence. rewrite F11. apply N.le_refl.
   - (* PushStart *) break_step; sset; try exact HJ; try (mono2 s).
   - (* Approve *) break_step; sset; try exact HJ; try (mono2 s).
-  - (* Poll *) break_step; sset; try exact HJ; try (mono2 s).
+  - (* Poll *)
+    break_step; sset; try exact HJ;
+    match goal with |- Inv2 (fst (upgrade ?k ?s ?u ?cs ?l)) => destruct (upgrade k s u cs l) as [s2 out] eqn:HU end;
+    sset;
+    match goal with HU : upgrade _ _ _ _ _ = (_, _) |- _ =>
+      destruct (upgrade_fields _ _ _ _ _ _ _ HU) as [_ [_ [_ [_ [F5 [F6 [F7 [_ [F9 [_ F11]]]]]]]]]] end;
+    apply (Inv2_mono s); sset; try congruence; try exact HJ; rewrite F11; apply N.le_refl.
   - (* Totp *)
     break_step; sset; try exact HJ. clean; subst.
     match goal with H : (?t <=? last_totp s ?u)%Z = false |- _ => apply Z.leb_gt in H;
-      apply (Inv2_mono (set_ghost (set_totp s (upd (last_totp s) u t)) (proved s) (OtTotp u t :: spent s)));
-      [apply Inv2_use_totp; assumption|sset; auto; lia ..] end.
+      up_inv2 (set_ghost (set_totp s (upd (last_totp s) u t)) (proved s) (OtTotp u t :: spent s)) Inv2_use_totp end.
   - (* U2fBegin *) break_step; sset; try exact HJ; apply Inv2_new_chal, HJ.
   - (* U2fFinish *)
     break_step; sset; try exact HJ;
-    try (match goal with H : (if ?x then true else true) = false |- _ => destruct x; discriminate end);
+    destruct (a_wa_key a);
     match goal with H : chal s ?u = Some ?ch |- _ =>
-      apply (Inv2_mono (set_ghost (set_chal s (upd (chal s) u None) (fresh s)) (proved s) (OtChal (chid ch) :: spent s)));
-      [apply Inv2_use_chal; assumption|sset; auto; lia ..] end.
+      up_inv2 (set_ghost (set_chal s (upd (chal s) u None) (fresh s)) (proved s) (OtChal (chid ch) :: spent s)) Inv2_use_chal end.
   - (* WaBegin *) break_step; sset; try exact HJ; apply Inv2_new_chal, HJ.
   - (* WaFinish *)
     break_step; sset; try exact HJ;
     match goal with H : chal s ?u = Some ?ch |- _ =>
-      apply (Inv2_mono (set_ghost (set_chal s (upd (chal s) u None) (fresh s)) (proved s) (OtChal (chid ch) :: spent s)));
-      [apply Inv2_use_chal; assumption|sset; auto; lia ..] end.
+      up_inv2 (set_ghost (set_chal s (upd (chal s) u None) (fresh s)) (proved s) (OtChal (chid ch) :: spent s)) Inv2_use_chal end.
   - (* IssueOtp *) break_step; sset; try exact HJ; apply Inv2_new_boot, HJ.
   - (* Bootstrap *)
     break_step; sset; try exact HJ. clean; subst.
     match goal with H : boot s ?u = Some ?b |- _ =>
-      apply (Inv2_mono (set_ghost (set_boot s (upd (boot s) u None) (fresh s)) (proved s) (OtBoot u (bserial b) :: spent s)));
-      [apply Inv2_use_boot; assumption|sset; auto; lia ..] end.
+      up_inv2 (set_ghost (set_boot s (upd (boot s) u None) (fresh s)) (proved s) (OtBoot u (bserial b) :: spent s)) Inv2_use_boot end.
   - (* ShowTok *) break_step; sset; try exact HJ; try (mono2 s).
   - (* SendDoc *) break_step; sset; try exact HJ; try (mono2 s).
-  - (* Tick *) try exact HJ; try (mono2 s).
+Qed.
+
+Lemma step_Inv2 k s o :
+  totp_monotone k = true -> chal_delete_wa k = true -> Inv2 s -> Inv2 (fst (step k s o)).
+Proof.
+  intros Hm Hd HJ. destruct o; try (apply (step_req_Inv2 k None false s _ Hm Hd HJ)).
+  cbn [step]. apply step_req_Inv2; try assumption. destruct cert; [|exact HJ]. cbn [present_cert]. mono2 s.
 Qed.
 
 Theorem run_Inv2 k ops : totp_monotone k = true -> chal_delete_wa k = true -> Inv2 (fst (run k init ops)).
@@ -394,8 +523,20 @@ Proof.
   induction ops as [|o r IH]; intros s HJ; [exact HJ|]. cbn [fold_left]. apply IH. apply step_Inv2; assumption.
 Qed.
 
+(* the request proper inside a wrapper *)
+Definition base (o : op) : op := match o with Req _ _ o' => o' | _ => o end.
+Definition cert_of (o : op) : option N := match o with Req c _ _ => c | _ => None end.
+Definition fault_of (o : op) : bool := match o with Req _ f _ => f | _ => false end.
+
+Lemma step_unfold k s o :
+  step k s o = step_req k (cert_of o) (fault_of o) (present_cert s (cert_of o)) (base o).
+Proof. destruct o; reflexivity. Qed.
+
+Lemma present_cert_spent s c : spent (present_cert s c) = spent s.
+Proof. destruct c; reflexivity. Qed.
+
 (* the one-time value an operation presents *)
-Definition presents (o : op) : option onetime :=
+Definition presents_req (o : op) : option onetime :=
   match o with
   | Totp _ (TCode owner t) => Some (OtTotp owner t)
   | Bootstrap _ (BCode owner n) => Some (OtBoot owner n)
@@ -403,23 +544,40 @@ Definition presents (o : op) : option onetime :=
   | WaFinish _ a => Some (OtChal (a_chal a))
   | _ => None
   end.
+Definition presents (o : op) : option onetime := presents_req (base o).
 
 (* acceptance records the value ... *)
-Lemma accepted_spent k s o v :
-  presents o = Some v -> snd (step k s o) <> None ->
-  spent (fst (step k s o)) = v :: spent s.
+Lemma accepted_spent_req k cert fault s o v :
+  presents_req o = Some v -> snd (step_req k cert fault s o) <> None ->
+  spent (fst (step_req k cert fault s o)) = v :: spent s.
 Proof.
-  intros Hp Hacc. destruct o; try discriminate; cbn [presents] in Hp.
-  - destruct code; [|discriminate]. inversion Hp; subst v. revert Hacc. cbn [step].
-    break_step; sset; try (intros H; exfalso; apply H; reflexivity); intros _; clean; subst; reflexivity.
-  - inversion Hp; subst v. revert Hacc. cbn [step].
+  intros Hp Hacc. destruct o; try discriminate; cbn [presents_req] in Hp.
+  - destruct code; [|discriminate]. inversion Hp; subst v. revert Hacc. cbn [step_req].
+    break_step; sset; try (intros H; exfalso; apply H; reflexivity); intros _; clean; subst;
+    match goal with HU : upgrade _ _ _ _ _ = (_, _) |- _ =>
+      destruct (upgrade_fields _ _ _ _ _ _ _ HU) as [_ [_ [_ [_ [_ [_ [_ [_ [F9 _]]]]]]]]]; rewrite F9 end; reflexivity.
+  - inversion Hp; subst v. revert Hacc. cbn [step_req].
     break_step; sset; try (intros H; exfalso; apply H; reflexivity); intros _; clean;
-      match goal with H : a_chal _ = _ |- _ => rewrite H end; reflexivity.
-  - inversion Hp; subst v. revert Hacc. cbn [step].
+    match goal with H : a_chal _ = _ |- _ => rewrite H end;
+    match goal with HU : upgrade _ _ _ _ _ = (_, _) |- _ =>
+      destruct (upgrade_fields _ _ _ _ _ _ _ HU) as [_ [_ [_ [_ [_ [_ [_ [_ [F9 _]]]]]]]]]; rewrite F9 end;
+    try (destruct (a_wa_key a); try destruct (chal_delete_wa k)); reflexivity.
+  - inversion Hp; subst v. revert Hacc. cbn [step_req].
     break_step; sset; try (intros H; exfalso; apply H; reflexivity); intros _; clean;
-      match goal with H : a_chal _ = _ |- _ => rewrite H end; reflexivity.
-  - destruct code; [|discriminate]. inversion Hp; subst v. revert Hacc. cbn [step].
-    break_step; sset; try (intros H; exfalso; apply H; reflexivity); intros _; clean; subst; reflexivity.
+    match goal with H : a_chal _ = _ |- _ => rewrite H end;
+    match goal with HU : upgrade _ _ _ _ _ = (_, _) |- _ =>
+      destruct (upgrade_fields _ _ _ _ _ _ _ HU) as [_ [_ [_ [_ [_ [_ [_ [_ [F9 _]]]]]]]]]; rewrite F9 end; reflexivity.
+  - destruct code; [|discriminate]. inversion Hp; subst v. revert Hacc. cbn [step_req].
+    break_step; sset; try (intros H; exfalso; apply H; reflexivity); intros _; clean; subst;
+    match goal with HU : upgrade _ _ _ _ _ = (_, _) |- _ =>
+      destruct (upgrade_fields _ _ _ _ _ _ _ HU) as [_ [_ [_ [_ [_ [_ [_ [_ [F9 _]]]]]]]]]; rewrite F9 end; reflexivity.
+Qed.
+
+Lemma accepted_spent k s o v :
+  presents o = Some v -> snd (step k s o) <> None -> spent (fst (step k s o)) = v :: spent s.
+Proof.
+  intros Hp Hacc. rewrite step_unfold in *. rewrite (accepted_spent_req _ _ _ _ _ v Hp Hacc).
+  rewrite present_cert_spent. reflexivity.
 Qed.
 
 (* ... and a recorded value is never accepted again *)
@@ -435,7 +593,7 @@ Proof.
 Qed.
 
 (* ---------------------------------------------------------------- answers about somebody else *)
-(* whom the environment's positive answer carried by the operation is about *)
+(* whom the environment's positive answer carried by the request is about *)
 Definition about (s : st) (o : op) : option N :=
   match o with
   | VipOtp _ (VGood owner) => Some owner
@@ -448,104 +606,105 @@ Definition about (s : st) (o : op) : option N :=
   | _ => None
   end.
 
-(* the user of the session the request runs in *)
-Definition requester (k : config) (s : st) (o : op) : option N :=
-  let ses cs m := match session k s cs m with Some c => Some (cuser c) | None => None end in
+(* the user the request is authenticated as (certificate first, else the session cookie) *)
+Definition requester (k : config) (s : st) (cert : option N) (o : op) : option N :=
+  let who cs m := match auth k s cert cs m with Some (u, _) => Some u | None => None end in
   match o with
-  | VipOtp cs _ | Totp cs _ | Bootstrap cs _ | U2fFinish cs _ | WaFinish cs _ | Poll cs _ => ses cs any_mask
-  | SendDoc cs _ => ses cs (webui k)
+  | VipOtp cs _ | Totp cs _ | Bootstrap cs _ | U2fFinish cs _ | WaFinish cs _ | Poll cs _ => who cs any_mask
+  | SendDoc cs _ => who cs (webui k)
   | _ => None
   end.
 
-Lemma cross_user_refused k s o u u' :
+Lemma cross_user_refused k cert fault s o u u' :
   poll_checks_user k = true -> Inv s ->
-  about s o = Some u -> requester k s o = Some u' -> u <> u' -> step k s o = (s, None).
+  about s o = Some u -> requester k s cert o = Some u' -> u <> u' -> step_req k cert fault s o = (s, None).
 Proof.
   intros Hk HI Ha Hr Hne.
   assert (Hneb : forall x y : N, x = u -> y = u' -> N.eqb x y = false).
   { intros x y -> ->. apply N.eqb_neq. exact Hne. }
-  destruct o; try discriminate; cbn [about requester] in Ha, Hr; cbn [step].
+  destruct o; try discriminate; cbn [about requester] in Ha, Hr; cbn [step_req].
   - (* VipOtp *)
-    destruct (session k s cs any_mask) as [c|]; [|discriminate]. inversion Hr; subst u'.
-    destruct code; [|discriminate]. inversion Ha; subst u. rewrite (Hneb owner (cuser c)) by reflexivity. reflexivity.
+    destruct (auth k s cert cs any_mask) as [[w l]|]; [|discriminate]. inversion Hr; subst u'.
+    destruct code; [|discriminate]. inversion Ha; subst u. rewrite (Hneb owner w) by reflexivity. reflexivity.
   - (* Poll *)
-    destruct (session k s cs any_mask) as [c|]; [|discriminate]. inversion Hr; subst u'.
+    destruct (auth k s cert cs any_mask) as [[w l]|]; [|discriminate]. inversion Hr; subst u'.
     destruct (find_vip s v) as [e|] eqn:Hv; [|discriminate].
     destruct HI as [_ [_ [I3 _]]]. rewrite (I3 e (find_vip_in _ _ _ Hv)) in Ha. inversion Ha; subst u.
-    rewrite Hk, (Hneb (vuser e) (cuser c)) by reflexivity. reflexivity.
+    rewrite Hk, (Hneb (vuser e) w) by reflexivity. reflexivity.
   - (* Totp *)
-    destruct (session k s cs any_mask) as [c|]; [|discriminate]. inversion Hr; subst u'.
+    destruct (auth k s cert cs any_mask) as [[w l]|]; [|discriminate]. inversion Hr; subst u'.
     destruct code; [|discriminate]. inversion Ha; subst u.
-    rewrite (Hneb owner (cuser c)) by reflexivity. rewrite andb_false_r. reflexivity.
+    rewrite (Hneb owner w) by reflexivity. rewrite andb_false_r. reflexivity.
   - (* U2fFinish *)
-    destruct (session k s cs any_mask) as [c|]; [|discriminate]. inversion Hr; subst u'. inversion Ha; subst u.
-    rewrite (Hneb (a_owner a) (cuser c)) by reflexivity. cbn [andb].
-    destruct (has_profile (devs k (cuser c)) && has_any_key (devs k (cuser c))); [|reflexivity].
-    destruct (chal s (cuser c)); [|reflexivity]. destruct (chal_expiry k && (chexp c0 <=? now s)%Z); reflexivity.
+    destruct (auth k s cert cs any_mask) as [[w l]|]; [|discriminate]. inversion Hr; subst u'. inversion Ha; subst u.
+    rewrite (Hneb (a_owner a) w) by reflexivity. cbn [andb].
+    destruct (has_profile (devs k w) && has_any_key (devs k w)); [|reflexivity].
+    destruct (chal s w) as [c0|]; [|reflexivity]. destruct (chal_expiry k && (chexp c0 <=? now s)%Z); reflexivity.
   - (* WaFinish *)
-    destruct (session k s cs any_mask) as [c|]; [|discriminate]. inversion Hr; subst u'. inversion Ha; subst u.
-    rewrite (Hneb (a_owner a) (cuser c)) by reflexivity. cbn [andb].
-    destruct (has_profile (devs k (cuser c))); [|reflexivity].
-    destruct (chal s (cuser c)); [|reflexivity]. destruct (chal_expiry k && (chexp c0 <=? now s)%Z); [reflexivity|].
+    destruct (auth k s cert cs any_mask) as [[w l]|]; [|discriminate]. inversion Hr; subst u'. inversion Ha; subst u.
+    rewrite (Hneb (a_owner a) w) by reflexivity. cbn [andb].
+    destruct (has_profile (devs k w)); [|reflexivity].
+    destruct (chal s w) as [c0|]; [|reflexivity]. destruct (chal_expiry k && (chexp c0 <=? now s)%Z); [reflexivity|].
     destruct (negb (ch_wa c0)); reflexivity.
   - (* Bootstrap *)
-    destruct (session k s cs any_mask) as [c|]; [|discriminate]. inversion Hr; subst u'.
+    destruct (auth k s cert cs any_mask) as [[w l]|]; [|discriminate]. inversion Hr; subst u'.
     destruct code; [|discriminate]. inversion Ha; subst u.
-    rewrite (Hneb owner (cuser c)) by reflexivity. cbn [andb].
-    destruct (has_totp (devs k (cuser c)) || has_u2f (devs k (cuser c))); [reflexivity|].
-    destruct (boot s (cuser c)); [|reflexivity]. destruct (bexp b <=? now s)%Z; reflexivity.
+    rewrite (Hneb owner w) by reflexivity. cbn [andb].
+    destruct (has_totp (devs k w) || has_u2f (devs k w)); [reflexivity|].
+    destruct (boot s w) as [b|]; [|reflexivity]. destruct (bexp b <=? now s)%Z; reflexivity.
   - (* SendDoc *)
-    destruct (session k s cs (webui k)) as [c|]; [|discriminate]. inversion Hr; subst u'.
+    destruct (auth k s cert cs (webui k)) as [[w l]|]; [|discriminate]. inversion Hr; subst u'.
     destruct (nth_error (tokens s) tk) as [t|]; [|discriminate]. inversion Ha; subst u.
-    rewrite (Hneb (towner t) (cuser c)) by reflexivity. reflexivity.
+    rewrite (Hneb (towner t) w) by reflexivity. reflexivity.
 Qed.
 
 (* ---------------------------------------------------------------- expired values *)
 (* the value presented is past its expiry: a code of a step the validator no longer looks at, the
-   stored bootstrap value / pending challenge of the session's user past ExpiresAt, a CLI token
-   past its exp claim *)
-Definition expired (k : config) (s : st) (o : op) : bool :=
+   stored bootstrap value / pending challenge of the authenticated user past ExpiresAt, a CLI
+   token past its exp claim *)
+Definition expired (k : config) (s : st) (cert : option N) (o : op) : bool :=
   match o with
   | Totp _ (TCode _ t) => (t <? totp_step (now s) - 1)%Z
   | Bootstrap cs _ =>
-      match session k s cs any_mask with
-      | Some c => match boot s (cuser c) with Some b => (bexp b <=? now s)%Z | None => false end
+      match auth k s cert cs any_mask with
+      | Some (u, _) => match boot s u with Some b => (bexp b <=? now s)%Z | None => false end
       | None => false
       end
   | U2fFinish cs _ | WaFinish cs _ =>
-      match session k s cs any_mask with
-      | Some c => match chal s (cuser c) with Some ch => (chexp ch <=? now s)%Z | None => false end
+      match auth k s cert cs any_mask with
+      | Some (u, _) => match chal s u with Some ch => (chexp ch <=? now s)%Z | None => false end
       | None => false
       end
   | SendDoc _ tk => match nth_error (tokens s) tk with Some t => (texp t <=? now s)%Z | None => false end
   | _ => false
   end.
 
-Lemma expired_refused k s o : chal_expiry k = true -> expired k s o = true -> step k s o = (s, None).
+Lemma expired_refused k cert fault s o :
+  chal_expiry k = true -> expired k s cert o = true -> step_req k cert fault s o = (s, None).
 Proof.
-  intros Hk He. destruct o; try discriminate; cbn [expired] in He; cbn [step].
-  - destruct code; [|discriminate]. destruct (session k s cs any_mask) as [c|]; [|reflexivity].
+  intros Hk He. destruct o; try discriminate; cbn [expired] in He; cbn [step_req].
+  - destruct code; [|discriminate]. destruct (auth k s cert cs any_mask) as [[w l]|]; [|reflexivity].
     apply Z.ltb_lt in He. replace (totp_step (now s) - 1 <=? stp)%Z with false by (symmetry; apply Z.leb_gt; lia).
     rewrite andb_false_r. reflexivity.
-  - destruct (session k s cs any_mask) as [c|]; [|reflexivity].
-    destruct (has_profile (devs k (cuser c)) && has_any_key (devs k (cuser c))); [|reflexivity].
-    destruct (chal s (cuser c)); [|reflexivity]. rewrite Hk, He. reflexivity.
-  - destruct (session k s cs any_mask) as [c|]; [|reflexivity].
-    destruct (has_profile (devs k (cuser c))); [|reflexivity].
-    destruct (chal s (cuser c)); [|reflexivity]. rewrite Hk, He. reflexivity.
-  - destruct (session k s cs any_mask) as [c|]; [|reflexivity].
-    destruct (has_totp (devs k (cuser c)) || has_u2f (devs k (cuser c))); [reflexivity|].
-    destruct (boot s (cuser c)); [|reflexivity]. rewrite He. reflexivity.
-  - destruct (session k s cs (webui k)) as [c|]; [|reflexivity].
+  - destruct (auth k s cert cs any_mask) as [[w l]|]; [|reflexivity].
+    destruct (has_profile (devs k w) && has_any_key (devs k w)); [|reflexivity].
+    destruct (chal s w); [|reflexivity]. rewrite Hk, He. reflexivity.
+  - destruct (auth k s cert cs any_mask) as [[w l]|]; [|reflexivity].
+    destruct (has_profile (devs k w)); [|reflexivity].
+    destruct (chal s w); [|reflexivity]. rewrite Hk, He. reflexivity.
+  - destruct (auth k s cert cs any_mask) as [[w l]|]; [|reflexivity].
+    destruct (has_totp (devs k w) || has_u2f (devs k w)); [reflexivity|].
+    destruct (boot s w); [|reflexivity]. rewrite He. reflexivity.
+  - destruct (auth k s cert cs (webui k)) as [[w l]|]; [|reflexivity].
     destruct (nth_error (tokens s) tk) as [t|]; [|reflexivity]. rewrite He.
-    destruct (negb (N.eqb (towner t) (cuser c))); reflexivity.
+    destruct (negb (N.eqb (towner t) w)); reflexivity.
 Qed.
 
 (* ---------------------------------------------------------------- the code before the repairs *)
 Definition dev_all : devices := {| has_totp := true; has_u2f := true; has_wa := true; has_profile := true |}.
 Definition cfg_with (poll mono expi del : bool) : config :=
   {| devs := fun _ => dev_all; webui := 2 ^ F_U2F; sel_last := true; poll_checks_user := poll;
-     totp_monotone := mono; chal_expiry := expi; chal_delete_wa := del |}.
+     totp_monotone := mono; chal_expiry := expi; chal_delete_wa := del; upgrade_checks_owner := true |}.
 
 (* user 2 polls with the push cookie of user 1's approved transaction *)
 Definition w_poll : list op := [Login 1 true; Login 2 true; PushStart [0%nat] 7; Approve 0; Poll [1%nat] 7].
@@ -584,3 +743,38 @@ Proof.
   - vm_compute. intros H. inversion H as [|x l Hn Hd]; subst. apply Hn. left. reflexivity.
   - vm_compute. repeat constructor. intros [].
 Qed.
+
+(* the upgrade as it was: user 1 authenticates with her client certificate and her own bootstrap
+   OTP while the password-only cookie of user 2 is attached — user 2's cookie gains the factors *)
+Definition dev_none : devices := {| has_totp := false; has_u2f := false; has_wa := false; has_profile := true |}.
+Definition cfg_old_upgrade : config :=
+  {| devs := fun _ => dev_none; webui := 2 ^ F_U2F; sel_last := true; poll_checks_user := true;
+     totp_monotone := true; chal_expiry := true; chal_delete_wa := true; upgrade_checks_owner := false |}.
+Definition cfg_new_upgrade : config :=
+  {| devs := fun _ => dev_none; webui := 2 ^ F_U2F; sel_last := true; poll_checks_user := true;
+     totp_monotone := true; chal_expiry := true; chal_delete_wa := true; upgrade_checks_owner := true |}.
+Definition w_cert : list op :=
+  [Login 2 true; IssueOtp 1 3600; Req (Some 1%N) false (Bootstrap [0%nat] (BCode 1 0))].
+Lemma old_cert_cookie :
+  let s := fst (run cfg_old_upgrade init w_cert) in
+  (exists c, In c (issued s) /\ cuser c = 2%N /\ has (clevel c) F_BOOT = true /\ has (clevel c) F_X509 = true /\
+             ~ In (2%N, F_BOOT) (proved s) /\ ~ In (2%N, F_X509) (proved s)) /\
+  nth 2 (snd (run cfg_new_upgrade init w_cert)) None = None.
+Proof.
+  split; [|vm_compute; reflexivity].
+  eexists. split; [vm_compute; right; left; reflexivity|]. split; [reflexivity|].
+  split; [vm_compute; reflexivity|]. split; [vm_compute; reflexivity|].
+  split; vm_compute; intros [H|[H|[H|H]]]; try discriminate; exact H.
+Qed.
+
+(* the ghost record of a presented certificate is invisible to the handlers *)
+Lemma auth_present k s c cert cs m : auth k (present_cert s c) cert cs m = auth k s cert cs m.
+Proof.
+  unfold auth, session. rewrite (attached_ext s (present_cert s c) cs) by (destruct c; reflexivity). reflexivity.
+Qed.
+
+Lemma requester_present k s c cert o : requester k (present_cert s c) cert o = requester k s cert o.
+Proof. destruct o; cbn [requester]; rewrite ?auth_present; reflexivity. Qed.
+
+Lemma about_present s c o : about (present_cert s c) o = about s o.
+Proof. destruct c; reflexivity. Qed.
